@@ -979,6 +979,7 @@ def build_packrat(repo, external=(), canary=None, with_witness=True, boost=False
     log["dropped"].append({"site": "src/parser.rs enum Nonterminal", "text": "Debug, Eq, Hash, PartialEq", "why": "only used by the HashMap, which is modelled by the cache stubs"})
     b.add("#[derive(Clone, Copy)]\n" + nt.text())
     b.add(read("spec/parser_view.rs"))
+    b.add(read("spec/packrat_parse_stubs.rs"))
     b.add(read("spec/packrat_spec.rs"))
 
     sp = Woven(parser_rs, "fn", "span", log)
@@ -1030,34 +1031,43 @@ TERM_VARIANT_IMPORT = VARIANT_IMPORT.replace("use crate::Variant::{", "use self:
 
 
 def r18_simple(w, start):
-    """R18 (scope guard, simple form): in a block without early exits
+    """R18 (scope guard, simple form): in an arm without early exits
          let context_cell = RefCell::new(context);
          defer! {{ context_cell.borrow_mut().remove(X); }};
          ..
          let mut guard = context_cell.borrow_mut();
+         .. statements using `&mut guard` ..
          <tail expression using `&mut guard`>
-       becomes   .. ; let result = <tail expression using `context`>; context.remove(X); result"""
+       becomes   .. ; .. statements using `context` ..; let result = <tail expression using `context`>; context.remove(X); result"""
     i = w.find(r"^\s*let context_cell = RefCell::new\(context\);$", start=start)
     m = re.match(r"^\s*defer! \{\{ context_cell\.borrow_mut\(\)\.remove\((.*)\); \}\};$", w.lines[i + 1])
     if not m:
         raise LostAnchor(f"{w._where(i + 1)}: scope guard: expected `defer! {{{{ context_cell.borrow_mut().remove(..); }}}};`")
     removed = m.group(1)
     g = w.find(r"^\s*let mut guard = context_cell\.borrow_mut\(\);$", start=i)
-    k = g + 1
-    while k < len(w.lines) and not w.lines[k].strip().startswith("term::Term {"):
-        if w.lines[k].strip() and not w.lines[k].strip().startswith("//"):
-            raise LostAnchor(f"{w._where(k)}: scope guard: the tail expression is expected right after the borrow")
-        k += 1
-    e = w.block_end(k)
+    # the arm: the enclosing `Variant::..  => {` block
+    a = max(k for k in range(0, i) if re.match(r"^        Variant::\w+.* => \{$", w.lines[k]))
+    z = w.block_end(a)
+    if not (i < g < z):
+        raise LostAnchor(f"{w._where(i)}: scope guard: borrow of the guard not found in the same arm")
+    k = None
+    for c in range(z - 1, g, -1):
+        if re.match(r"^            term::Term \{$", w.lines[c]) and w.block_end(c) == z - 1:
+            k = c
+            break
+    if k is None:
+        raise LostAnchor(f"{w._where(g)}: scope guard: the arm does not end in a `term::Term {{ .. }}` tail expression")
+    e = z - 1
     ind = re.match(r"^\s*", w.lines[k]).group(0)
-    for l in w.lines[i + 2 : g]:
+    for l in w.lines[i + 2 : e + 1]:
         if re.search(r"\b(return|break|continue)\b|\?;", l.split("//")[0]):
             raise LostAnchor(f"{w._where(i)}: scope guard: early exit inside the guarded block")
+    between = [l.replace("&mut guard", "context") for l in w.lines[g + 1 : k]]
     body = [l.replace("&mut guard", "context") for l in w.lines[k : e + 1]]
     body[0] = ind + "let result = " + body[0].lstrip()
     body[-1] = body[-1] + ";"
-    keep = [l for n, l in enumerate(w.lines[i:k]) if (i + n) not in (i, i + 1, g)]
-    w.rewrite_lines("R18-scope-guard", i, e, keep + body + [ind + f"context.remove({removed});", ind + "result"],
+    keep = [l for n, l in enumerate(w.lines[i:g]) if (i + n) not in (i, i + 1)]
+    w.rewrite_lines("R18-scope-guard", i, e, keep + between + body + [ind + f"context.remove({removed});", ind + "result"],
                     note="scopeguard idiom: the deferred statement runs when the block is left, i.e. after the tail expression (no early exit in the block); RefCell only serves to share `context` with the guard")
     return i
 
@@ -1119,6 +1129,19 @@ def enumerate_to_index(w, a):
     names = []
     while k < len(w.lines) and k <= w.block_end(a):
         l = w.lines[k]
+        mi = re.match(r"^(\s*)for (\w+) in 0\.\.(\w+)\.len\(\) \{$", l)
+        if mi and k + 1 < len(w.lines) and re.match(r"^\s*let \(.*\) = &%s\[%s\];$" % (mi.group(3), mi.group(2)), w.lines[k + 1]):
+            names.append((mi.group(2), mi.group(3)))     # already an index loop of the expected shape
+            k += 1
+            continue
+        mr = re.match(r"^(\s*)for (\(.*\)) in &(\w+) \{$", l)
+        if mr:
+            # a loop over the elements only: give it an index (the hints speak about positions)
+            idx = f"loop_index_{len(names) + 1}"
+            w.rewrite_lines("R4-enumerate", k, k, [f"{mr.group(1)}for {idx} in 0..{mr.group(3)}.len() {{", f"{mr.group(1)}    let {mr.group(2)} = &{mr.group(3)}[{idx}];"], note="`for PAT in &v` as an index loop with a fresh index")
+            names.append((idx, mr.group(3)))
+            k += 1
+            continue
         mm = re.match(r"^(\s*)for \((\w+), (\(.*\))\) in (\w+)\.iter\(\)\.enumerate\(\) \{$", l)
         if mm:
             w.rewrite_lines("R4-enumerate", k, k, [f"{mm.group(1)}for {mm.group(2)} in 0..{mm.group(4)}.len() {{", f"{mm.group(1)}    let {mm.group(3)} = &{mm.group(4)}[{mm.group(2)}];"], note="enumerate() over a slice iterator as an index loop")
@@ -1152,8 +1175,10 @@ def weave_resolve(w, sc):
     ind = m.group(1)
     w.rewrite_lines("R10-option-map", i, j, [f"{ind}let {m.group(2)} = match {m.group(3)}.as_ref() {{", f"{ind}    Some({m.group(4)}) => Some({{"] + w.lines[i + 1 : j] + [f"{ind}    }}),", f"{ind}    None => None,", f"{ind}}};"],
                     note="closure capturing `&mut` state (unsupported by Verus) as the equivalent match")
-    p = r18_simple(w, 0)
-    r18_simple(w, p + 1)
+    # scope guards of the Lambda and Pi arms (an arm that is already straight-line needs no rewrite)
+    p = 0
+    while w.count(r"^\s*let context_cell = RefCell::new\(context\);$"):
+        p = r18_simple(w, 0)
     i = w.find(r"^\s*(\w+)\.map_or_else\($")
     j = w.block_end(i)
     ind = re.match(r"^\s*", w.lines[i]).group(0)
@@ -1230,15 +1255,14 @@ def build_resolve(repo, external=(), canary=None, with_witness=True, boost=False
         raise LostAnchor("src/parser.rs fn collect_definitions: signature not as expected")
     sub = lambda x: x.replace("$DEFS", m.group(1)).replace("$TERM", m2.group(1))
     cd.contract(sub(sc["collect_definitions.contract"]), ret="r")
-    pat = cd.find(r"^\s*Variant::Let\((\w+), (\w+), (\w+), (\w+)\) => \{$")
-    ann = re.match(r"^\s*Variant::Let\(\w+, (\w+), ", cd.lines[pat]).group(1)
+    pat = cd.find(r"Variant::Let\((\w+), (\w+), (\w+), (\w+)\)")
+    ann, body_name = re.search(r"Variant::Let\(\w+, (\w+), \w+, (\w+)\)", cd.lines[pat]).groups()
     cd.rewrite_regex("R1-derive-clone", r"\b%s\.clone\(\)" % ann, "clone_option_rc(%s)" % ann, expect=1, note="Option<Rc<Term>>::clone returns an equal value (vstd's Option::clone spec is too weak for Rc payloads)")
     cd.body_first(sub(sc["collect_definitions.first"]))
     # the hint after the recursive call is attached where such a tail call exists (without it the contract simply fails)
-    if cd.count(r"^\s*collect_definitions\(%s, (\w+)\.clone\(\)\)$" % m.group(1)):
-        k = cd.find(r"^\s*collect_definitions\(%s, (\w+)\.clone\(\)\)$" % m.group(1))
-        body_name = re.match(r"^\s*collect_definitions\(\w+, (\w+)\.clone\(\)\)$", cd.lines[k]).group(1)
-        cd.bind_tail(r"^\s*collect_definitions\(%s, (\w+)\.clone\(\)\)$" % m.group(1), "collected", sub(sc["collect_definitions.tail"]).replace("$BODY", body_name))
+    tail = r"^\s*collect_definitions\(%s, [^;]*\)$" % m.group(1)
+    if cd.count(tail):
+        cd.bind_tail(tail, "collected", sub(sc["collect_definitions.tail"]).replace("$BODY", body_name))
     b.add_fn(cd, external="collect_definitions" in external)
 
     rv = Woven(parser_rs, "fn", "resolve_variables", log)
@@ -1253,19 +1277,30 @@ def build_resolve(repo, external=(), canary=None, with_witness=True, boost=False
 
 def weave_resolve_contract(w, sc):
     vec_name, loops = weave_resolve(w, sc)
-    if len(loops) != 2:
-        raise LostAnchor(f"{w.src.rel} fn resolve_variables: expected two enumerate loops in the Let arm, found {len(loops)}")
     a = w.find(r"^        Variant::Let\(_, _, _, _\) => \{$")
+    # the two loops the hints speak about: the one that inserts the names and the one that resolves the definitions
+    # (any other loop of the arm is left without invariant)
+    heads = [k for k in range(a, w.block_end(a)) if re.match(r"^\s*for \w+ in 0\.\.\w+\.len\(\) \{$", w.lines[k])]
+    def loop_with(pattern):
+        for f in heads:
+            if any(re.search(pattern, l) for l in w.lines[f : w.block_end(f) + 1]):
+                mm = re.match(r"^\s*for (\w+) in 0\.\.(\w+)\.len\(\) \{$", w.lines[f])
+                return (mm.group(1), mm.group(2), f)
+        raise LostAnchor(f"{w.src.rel} fn resolve_variables: no loop of the Let arm contains /{pattern}/")
+    loops = [loop_with(r"\.insert\("), loop_with(r"\bresolve_variables\(")]
     # names the hints must mention, taken from the code
     c = w.find(r"^\s*let (\w+) = collect_definitions\(&mut (\w+), Rc::new\(term\.clone\(\)\)\);$", start=a)
     inner, defs = re.match(r"^\s*let (\w+) = collect_definitions\(&mut (\w+), ", w.lines[c]).groups()
     # the depth of the group: the single-line `let X = ..;` between the first loop and the vector of results
-    l1 = w.find(r"^\s*for %s in 0\.\.%s\.len\(\) \{$" % (loops[0][0], defs), start=a)
-    nd = w.find(r"^            let (\w+) = [^;]*;$", start=w.block_end(l1) + 1)
+    l1 = loops[0][2]
+    l1e = w.block_end(l1)
+    cand = [k for k in range(c + 1, l1) if re.match(r"^            let (\w+) = depth \+ [^;]*;$", w.lines[k])]
+    nd = cand[0] if cand else w.find(r"^            let (\w+) = [^;]*;$", start=l1e + 1)
     newd = re.match(r"^\s*let (\w+) = ", w.lines[nd]).group(1)
-    rs = w.find(r"^\s*let mut (\w+) = vec!\[\];$", start=nd)
+    rs = w.find(r"^\s*let mut (\w+) = vec!\[\];$", start=l1e + 1)
+    nd = max(nd, l1e)    # the hint that follows goes after the first loop in either case
     res = re.match(r"^\s*let mut (\w+) = ", w.lines[rs]).group(1)
-    (i1, _), (i2, _) = loops
+    (i1, _, h1), (i2, _, h2) = loops
     sub = lambda text, i="": text.replace("$DEFS", defs).replace("$ADDED", vec_name).replace("$RES", res).replace("$NEWD", newd).replace("$INNER", inner).replace("$I", i)
     ins = lambda at, text: w.lines.__setitem__(slice(at, at), text.rstrip("\n").split("\n"))
     # work bottom-up so that earlier indices stay valid
@@ -1280,7 +1315,7 @@ def weave_resolve_contract(w, sc):
     ins(r1 + 1, sub(sc["let.after_result"]))
     ins(r0, sub(sc["let.before_result"]))
     # loop 2
-    f2 = w.find(r"^\s*for %s in 0\.\.%s\.len\(\) \{$" % (i2, defs), nth=2, start=a)
+    f2 = h2
     e2 = w.block_end(f2)
     p2 = w.find(r"^\s*%s\.push\(\($" % res, start=f2)
     ra = w.find(r"^\s*let (\w+) = match (\w+) \{$", start=f2)
@@ -1292,7 +1327,7 @@ def weave_resolve_contract(w, sc):
     w.lines[f2 : f2 + 1] = [m2.group(1) + "it2: " + m2.group(2)] + sub(sc["let.loop2.invariant"], i2).rstrip("\n").split("\n") + ["            {"]
     ins(nd + 1, sub(sc["let.after_loop1"]))
     # loop 1
-    f1 = w.find(r"^\s*for %s in 0\.\.%s\.len\(\) \{$" % (i1, defs), start=a)
+    f1 = h1
     e1 = w.block_end(f1)
     ins(e1, sub(sc["let.loop1.last"], i1))
     pushes = [k for k in range(f1, e1) if re.match(r"^\s*%s\.push\((.*)\);$" % vec_name, w.lines[k])]
@@ -1312,6 +1347,176 @@ def weave_resolve_contract(w, sc):
     ins(w.block_end(lr) + 1, sc["lambda.after_result"])
     w.contract(sc["resolve_variables.contract"], ret="r")
     w.body_first(sc["resolve_variables.first"])
+
+
+# ---------------------------------------------------------------------------------------------
+# U7: the whole of parse(); every function it calls appears as a stub carrying its own (verified elsewhere) contract
+
+CLASS_OF = {"reassociate_applications": "Class::Apps", "reassociate_products_and_quotients": "Class::Muls", "reassociate_sums_and_differences": "Class::Adds"}
+
+
+def weave_parse_full(w, sc, flavor):
+    strip_clippy(w)
+    unchain_let(w)
+    if w.lines[0].startswith("pub fn parse<"):
+        # visibility only: a public function's contract may not mention private spec functions
+        w.lines[0] = w.lines[0][4:]
+        w.log["dropped"].append({"site": "src/parser.rs fn parse", "text": "pub", "why": "visibility only (the contract mentions private spec functions)"})
+    w.rewrite_regex("R2-type-substitution", r"source_path: Option<&'a Path>,", "source_path: SourcePath<'a>,", expect=1, note="only passed on to the error constructors")
+    i = w.find(r"^    let mut (\w+) = Cache::new\(\);$")
+    cache = re.match(r"^    let mut (\w+) = ", w.lines[i]).group(1)
+    w.rewrite_lines("R14-cache", i, i, [f"    let mut {cache} = cache_new();"], note="HashMap::new() -> stub: an empty memo table")
+    i = w.find(r"^    let \((\w+), (?:mut )?(\w+), _\) = parse_term\(&mut %s, (\w+), 0\);$" % cache)
+    term, nxt, toks = re.match(r"^    let \((\w+), (?:mut )?(\w+), _\) = parse_term\(&mut \w+, (\w+), 0\);$", w.lines[i]).groups()
+    i = w.find(r"^        return Err\(\w+$")
+    j = statement_end(w, i)
+    w.rewrite_lines("R16-parse-exits", i, j, ["        return parse_rejected();"], note="the Err(..) value (error factories applied to the source) is outside the property")
+    k = w.find(r"^    if !\w+\.is_empty\(\) \{$")
+    e = w.block_end(k)
+    w.lines[e + 1 : e + 1] = sc["parse.checked." + flavor].replace("$TERM", term).replace("$NEXT", nxt).replace("$TOKENS", toks).rstrip("\n").split("\n")
+    # the three passes: nested call -> three lets (R8), in the order the code applies them
+    i = w.find(r"^    let (\w+) = reassociate_\w+\($", start=e)
+    j = statement_end(w, i)
+    flat = "".join(l.strip() for l in w.lines[i : j + 1])
+    m = re.match(r"^let (\w+) = (.*);$", flat)
+    if not m:
+        raise LostAnchor(f"{w._where(i)}: the re-association statement is not as expected")
+    p3, expr = m.group(1), m.group(2)
+    fns = []     # outermost first
+    while True:
+        mm = re.match(r"^(reassociate_\w+)\(None,\s*&(.*?),?\)$", expr)
+        if not mm:
+            break
+        fns.append(mm.group(1))
+        expr = mm.group(2)
+    if expr != term or not fns or any(f not in CLASS_OF for f in fns):
+        raise LostAnchor(f"{w._where(i)}: the nested re-association calls are not as expected")
+    fns.reverse()   # innermost (first applied) first
+    names = [f"pass_{n + 1}" for n in range(len(fns) - 1)] + [p3]
+    ins = [term] + names
+    hp = lambda c, a, o: sc["parse.pass"].replace("$C", CLASS_OF[c]).replace("$IN", a).replace("$OUT", o).rstrip("\n").split("\n")
+    new_lines = []
+    for n, f in enumerate(fns):
+        new_lines += [f"    let {names[n]} = {f}(None, &{ins[n]});"] + hp(f, ins[n], names[n])
+    new_lines += sc["parse.passes"].replace("$P3", p3).rstrip("\n").split("\n")
+    w.rewrite_lines("R8-hoist-argument", i, j, new_lines, note="nested call arguments bound to locals, innermost first (same evaluation order); proof hints follow each call")
+    # the classes and intermediate trees named in the final assertion (a missing pass repeats the previous tree)
+    while len(fns) < 3:
+        fns.append(fns[-1]); names.append(names[-1])
+    f1, f2, f3 = fns[:3]
+    p1n, p2n = names[0], names[1]
+    # the initial context
+    i = w.find(r"^    let mut (\w+): HashMap<&'a str, usize> = (\w+)$")
+    cvar, src = re.match(r"^    let mut (\w+): HashMap<&'a str, usize> = (\w+)$", w.lines[i]).groups()
+    j = statement_end(w, i)
+    flat = "".join(l.strip() for l in w.lines[i + 1 : j + 1])
+    if flat != ".iter().enumerate().map(|(i, variable)| (*variable, i)).collect();":
+        raise LostAnchor(f"{w._where(i)}: construction of the initial context not as expected")
+    w.rewrite_lines("R19-initial-context", i, j, [f"    let mut {cvar}: Context<'a> = context_from_names({src});"], note="iterator chain collecting (name, index) pairs into a HashMap -> stub building the map name_i -> i")
+    # the end
+    i = w.find(r"^    let (\w+) = resolve_variables\($")
+    resolved = re.match(r"^    let (\w+) = ", w.lines[i]).group(1)
+    ce = statement_end(w, i)
+    call = "".join(l.strip() for l in w.lines[i : ce + 1])
+    ma = re.match(r"^let \w+ = resolve_variables\(\w+,\w+,&(\w+),.*,&mut (\w+),&mut (\w+),\);$", call)
+    if not ma:
+        raise LostAnchor(f"{w._where(i)}: the call of resolve_variables is not as expected")
+    arg, errs = ma.group(1), ma.group(3)
+    # the accepting exit: the last `if .. {` of the function whose then-branch is `Ok(..)`
+    ks = [k for k in range(ce + 1, len(w.lines) - 1) if re.match(r"^    if .* \{$", w.lines[k]) and re.match(r"^        Ok\(", w.lines[k + 1])]
+    if not ks:
+        raise LostAnchor(f"{w.src.rel} fn parse: the accepting exit `if .. {{ Ok(..)` not found")
+    k = ks[-1]
+    fill = lambda t: t.replace("$ERRORS", errs).replace("$TOKENS", toks).replace("$TERM", term).replace("$P1", p1n).replace("$P2", p2n).replace("$P3", p3).replace("$ARG", arg).replace("$RESOLVED", resolved).replace("$C1", CLASS_OF[f1]).replace("$C2", CLASS_OF[f2]).replace("$C3", CLASS_OF[f3])
+    w.lines[k:k] = fill(sc["parse.end." + flavor]).rstrip("\n").split("\n")
+    w.lines[i:i] = fill(sc["parse.handover." + flavor]).rstrip("\n").split("\n")
+    w.contract(sc["parse.contract." + flavor], ret="r")
+    w.body_first(sc["parse.first"])
+    w.log["annotations"].append({"fn": w.name, "kind": "proof hints", "count": 4})
+
+
+def build_pipeline(repo, external=(), canary=None, with_witness=True, boost=False, flavor="C08"):
+    b = Build("pipeline")
+    log = b.log
+    sc = sections(os.path.join(VERIF, "contracts/u7.vrs"))
+    sc4 = sections(os.path.join(VERIF, "contracts/u4.vrs"))
+    sc5 = sections(os.path.join(VERIF, "contracts/u5.vrs"))
+    sc6 = sections(os.path.join(VERIF, "contracts/u6.vrs"))
+    if canary and canary[0] != "*calls*":
+        sc = dict(sc)
+        sc[canary[0] + ".contract." + flavor] = sc[canary[1]]
+    parser_rs = Source(repo, "src/parser.rs")
+    term_rs = Source(repo, "src/term.rs")
+    error_rs = Source(repo, "src/error.rs")
+    token_rs = Source(repo, "src/token.rs")
+    b.add(RESOLVE_HEADER)
+    b.add(read("spec/core_prelude.rs"))
+    b.add(read("spec/resolve_prelude.rs"))
+    sr = Woven(error_rs, "struct", "SourceRange", log)
+    b.add("#[derive(Clone, Copy)]\n" + sr.text())
+    b.add("pub mod token {\nuse super::*;\n")
+    for kind, name in (("struct", "Token"), ("enum", "Variant"), ("enum", "TerminatorType")):
+        b.add(Woven(token_rs, kind, name, log).text())
+    b.add("}\nuse token::{TerminatorType, Token};\n")
+    t = Woven(term_rs, "struct", "Term", log)
+    v = Woven(term_rs, "enum", "Variant", log)
+    strip_clippy(v)
+    b.add("pub mod term {\nuse super::*;\n")
+    b.add(t.text())
+    b.add(v.text())
+    b.add(CLONE_IMPLS)
+    b.add(TERM_VARIANT_IMPORT)
+    b.add(read("spec/core_prelude_term.rs"))
+    b.add(read("spec/core_spec.rs"))
+    b.add("}\n")
+    sv = Woven(parser_rs, "struct", "SourceVariable", log)
+    b.add("#[derive(Clone, Copy)]\n" + sv.text())
+    b.add(Woven(parser_rs, "struct", "Term", log).text())
+    b.add(Woven(parser_rs, "enum", "Variant", log).text())
+    b.add(PARSER_CLONE_IMPLS)
+    b.add("#[derive(Clone, Copy)]\n" + Woven(parser_rs, "enum", "Nonterminal", log).text())
+    for name in ("ProductOrQuotient", "SumOrDifference"):
+        b.add(Woven(parser_rs, "enum", name, log).text())
+    ph = [l for l in parser_rs.lines if l.startswith("pub const PLACEHOLDER_VARIABLE")]
+    if ph != ['pub const PLACEHOLDER_VARIABLE: &str = "_";']:
+        raise LostAnchor("src/parser.rs: const PLACEHOLDER_VARIABLE not as expected")
+    b.add(ph[0].replace("&str", "&'static str"))
+    b.add(read("spec/parser_view.rs"))
+    b.add(read("spec/parser_spec.rs"))
+    b.add(read("spec/packrat_spec.rs"))
+    b.add(read("spec/resolve_spec.rs"))
+    b.add(read("spec/resolve_context.rs"))
+    b.add(read("spec/resolve_lemmas.rs"))
+    b.add(read("spec/pipeline_spec.rs"))
+    # the callees, each with the contract it is verified against in its own unit (bodies cut)
+    pt = Woven(parser_rs, "fn", "parse_term", log)
+    weave_parse_fn(pt, "Term", sc5)
+    b.add_fn(pt, external=True)
+    ce = Woven(parser_rs, "fn", "collect_error_factories", log)
+    m = re.match(r"^fn collect_error_factories<'a>\((\w+): &mut Vec<ErrorFactory<'a>>, (\w+): &Term<'a>\) \{$", ce.lines[0])
+    if not m:
+        raise LostAnchor("src/parser.rs fn collect_error_factories: signature not as expected")
+    ce.contract(sc5["collect.contract"].replace("$OUT", m.group(1)).replace("$TERM", m.group(2)))
+    b.add_fn(ce, external=True)
+    for fname, key in (("reassociate_applications", "apps"), ("reassociate_products_and_quotients", "muls"), ("reassociate_sums_and_differences", "adds")):
+        w = Woven(parser_rs, "fn", fname, log)
+        strip_clippy(w)
+        w.contract(sc4[key + ".contract"], ret="r")
+        b.add_fn(w, external=True)
+    rv = Woven(parser_rs, "fn", "resolve_variables", log)
+    strip_clippy(rv)
+    rv.rewrite_regex("R2-type-substitution", r"context: &mut HashMap<&'a str, usize>,", "context: &mut Context<'a>,", expect=1)
+    rv.rewrite_regex("R2-type-substitution", r"source_path: Option<&'a Path>,", "source_path: SourcePath<'a>,", expect=1)
+    # C07 says nothing about resolve_variables: there it is a stub without a contract (its preconditions are C08's business)
+    rv.contract(sc6["resolve_variables.contract"] if flavor == "C08" else "    // (no contract in the C07 flavour of this unit)\n", ret="r")
+    b.add_fn(rv, external=True)
+    pa = Woven(parser_rs, "fn", "parse", log)
+    weave_parse_full(pa, sc, flavor)
+    b.add_fn(pa, external="parse" in external)
+    if canary and canary[0] == "*calls*":
+        b.add(read("spec/pipeline_witness.rs"))
+    b.add("} // verus!\nfn main() {}\n")
+    return b
 
 
 def canaries(unit):
@@ -1335,7 +1540,7 @@ def packrat_canaries(repo):
 if __name__ == "__main__":
     import sys, json
     which = sys.argv[3] if len(sys.argv) > 3 else "core"
-    b = {"core": build_core, "parser": build_parser, "packrat": build_packrat, "resolve": build_resolve}[which](sys.argv[1] if len(sys.argv) > 1 else "/repo")
+    b = {"core": build_core, "parser": build_parser, "packrat": build_packrat, "resolve": build_resolve, "pipeline": build_pipeline}[which](sys.argv[1] if len(sys.argv) > 1 else "/repo")
     dst = sys.argv[2] if len(sys.argv) > 2 else "/var/tmp/gv/core.rs"
     with open(dst, "w") as f:
         f.write(b.text())
